@@ -63,17 +63,18 @@ func e2CheckLayouts(c *Ctx, rule string, sel func(name string, f *ssa.Function) 
 		}
 		n++
 		sk, sc := e2Skeleton(ns), e2Str(ns)
-		if sk != row.Skeleton {
+		if normSchemaStr(sk) != normSchemaStr(row.Skeleton) {
 			r.Violation(rule, name+": slot widths equal the "+row.RFC+" layout", c.P.pos(f.Pos()),
 				fmt.Sprintf("width sequence is  %s\n    reviewed/RFC is    %s   (RFC skeleton: %s)\n    full schema now:   %s", sk, row.Skeleton, row.RFCSkeleton, sc))
 			return
 		}
-		if sc != row.Schema {
+		if nsc, nrow := normSchemaStr(sc), normSchemaStr(row.Schema); nsc != nrow {
+			sc, row = nsc, &layoutRow{Schema: nrow, RFC: row.RFC}
 			r.Violation(rule, name+": every slot is written from / read into the reviewed field with the reviewed transform", c.P.pos(f.Pos()),
-				fmt.Sprintf("schema is    %s\n    reviewed is  %s\n    first difference: %s", sc, row.Schema, firstDiff(sc, row.Schema)))
+				fmt.Sprintf("schema is    %s\n    reviewed is  %s\n    (both in normal form) first difference: %s", sc, row.Schema, firstDiff(sc, row.Schema)))
 			return
 		}
-		r.OK(rule, name+": schema equals the reviewed "+row.RFC+" layout", c.P.pos(f.Pos()), "E2 extraction = spec/layouts.json", sc)
+		r.OK(rule, name+": schema equals the reviewed "+row.RFC+" layout", c.P.pos(f.Pos()), "E2 extraction = spec/layouts.json (compared in normal form)", sc)
 	}
 	for _, f := range encs {
 		check(f, true)
